@@ -105,29 +105,47 @@ Fixpoint run {S} (step : S -> op -> S * out) (s : S) (ops : list op) : S * list 
    four starting states and from Unmarshal has this shape) *)
 Definition shape_ok (h : header) : Prop := extension h = false -> extensions h = [].
 
-Lemma step_refines h o : shape_ok h ->
+(* SetExtension refuses a value that would make the elements exceed 65535 words, the most the 16-bit
+   length field can count (D36).  The ordered map knows nothing of sizes: the refinement is stated for
+   the calls that stay within that limit ([op_fits]; [inv_op_fits]: every call on a header without a
+   repeated id does), a call beyond it returns an error and leaves the header unchanged
+   ([error_leaves_unchanged]). *)
+Definition op_fits (h : header) (o : op) : Prop :=
+  match o with
+  | OSet id v => extension h = true -> valid_for (extension_profile h) id v = None ->
+                 exts_size_with (extension_profile h) id (zlen v) (extensions h) <= 262140
+  | _ => True
+  end.
+
+Lemma step_refines h o : shape_ok h -> op_fits h o ->
   let '(h', r) := model_step h o in
   spec_step (abs_state h) o = (abs_state h', r) /\ shape_ok h'.
 Proof.
-  intros Hshape. destruct o as [id v|id|id|]; cbn [model_step spec_step].
+  intros Hshape Hfit. destruct o as [id v|id|id|]; cbn [model_step spec_step].
   - (* Set *)
     unfold set_extension, abs_state, abs. cbn [s_enabled s_profile s_map].
     destruct (extension h) eqn:Hx.
-    + unfold valid_for.
+    + assert (Hf : valid_for (extension_profile h) id v = None ->
+                   (262140 <? exts_size_with (extension_profile h) id (zlen v) (extensions h)) = false)
+        by (intros Hv; apply Z.ltb_ge, Hfit; [exact Hx|exact Hv]).
+      unfold valid_for in *.
       destruct (extension_profile h =? profile_one_byte) eqn:E1.
       * destruct ((id <? 1) || (14 <? id)); [split; [rewrite ?Hx; reflexivity|exact Hshape]|].
         destruct ((zlen v =? 0) || (16 <? zlen v)); [split; [rewrite ?Hx; reflexivity|exact Hshape]|].
+        rewrite (Hf eq_refl).
         pose proof (set_existing_spec id v (extensions h)) as Hs.
         destruct (set_existing id v (extensions h)); cbn [extension extension_profile extensions with_exts];
           rewrite <- Hs; (split; [reflexivity|intros; discriminate]).
       * destruct (ext_form (extension_profile h) =? profile_two_byte) eqn:E2.
         -- destruct (id <? 1); [split; [rewrite ?Hx; reflexivity|exact Hshape]|].
            destruct (255 <? zlen v); [split; [rewrite ?Hx; reflexivity|exact Hshape]|].
+           rewrite (Hf eq_refl).
            pose proof (set_existing_spec id v (extensions h)) as Hs.
            destruct (set_existing id v (extensions h)); cbn [extension extension_profile extensions with_exts];
              rewrite <- Hs; (split; [reflexivity|intros; discriminate]).
         -- destruct (negb (id =? 0)); [split; [rewrite ?Hx; reflexivity|exact Hshape]|].
            destruct (262140 <? zlen v); [split; [rewrite ?Hx; reflexivity|exact Hshape]|].
+           rewrite (Hf eq_refl).
            pose proof (set_existing_spec id v (extensions h)) as Hs.
            destruct (set_existing id v (extensions h)); cbn [extension extension_profile extensions with_exts];
              rewrite <- Hs; (split; [reflexivity|intros; discriminate]).
@@ -156,14 +174,21 @@ Proof.
 Qed.
 
 (* every finite operation sequence: the model's answers are the ordered map's answers *)
-Theorem accessors_refine : forall ops h, shape_ok h ->
+Fixpoint run_fits (h : header) (ops : list op) : Prop :=
+  match ops with
+  | [] => True
+  | o :: t => op_fits h o /\ run_fits (fst (model_step h o)) t
+  end.
+
+Theorem accessors_refine : forall ops h, shape_ok h -> run_fits h ops ->
   let '(h', outs) := run model_step h ops in
   run spec_step (abs_state h) ops = (abs_state h', outs) /\ shape_ok h'.
 Proof.
-  induction ops as [|o t IH]; intros h Hs; cbn [run]; [split; [reflexivity|exact Hs]|].
-  pose proof (step_refines h o Hs) as H1.
+  induction ops as [|o t IH]; intros h Hs Hf; cbn [run]; [split; [reflexivity|exact Hs]|].
+  destruct Hf as [Hf1 Hf2].
+  pose proof (step_refines h o Hs Hf1) as H1.
   destruct (model_step h o) as [h1 r]. destruct H1 as [H1 Hs1]. rewrite H1.
-  specialize (IH h1 Hs1). destruct (run model_step h1 t) as [h2 rs]. destruct IH as [IH Hs2].
+  specialize (IH h1 Hs1 Hf2). destruct (run model_step h1 t) as [h2 rs]. destruct IH as [IH Hs2].
   rewrite IH. split; [reflexivity|exact Hs2].
 Qed.
 
@@ -176,7 +201,8 @@ Proof.
     destruct (extension h).
     + destruct (if extension_profile h =? profile_one_byte then _ else _) as [e0|].
       * intros H; inversion H; reflexivity.
-      * destruct (set_existing id v (extensions h)); intros H; inversion H.
+      * destruct (262140 <? exts_size_with _ _ _ _); [intros H; inversion H; reflexivity|].
+        destruct (set_existing id v (extensions h)); intros H; inversion H.
     + repeat (case_if; try (intros H; inversion H; reflexivity)); intros H; inversion H; reflexivity.
   - unfold del_extension. destruct (negb (extension h)); [intros H; inversion H; reflexivity|].
     destruct (del_first id (extensions h)); intros H; inversion H; reflexivity.
@@ -359,17 +385,20 @@ Proof.
       destruct (extension_profile h =? profile_one_byte) eqn:E1.
       * destruct ((id <? 1) || (14 <? id)) eqn:Ea; [cbn [fst]; intros _; rewrite E1; auto|].
         destruct ((zlen v =? 0) || (16 <? zlen v)) eqn:Eb; [cbn [fst]; intros _; rewrite E1; auto|].
+        destruct (262140 <? exts_size_with _ _ _ _); [cbn [fst]; intros _; rewrite E1; auto|].
         destruct (upd_inv wf_ext1s id v (extensions h) Hnd Hall ltac:(unfold wf_ext1s; cbn [eid epayload]; lia)) as [U1 U2].
         destruct (set_existing id v (extensions h)); cbn [fst]; intros _; unfold ids;
           cbn [extensions extension_profile with_exts]; rewrite E1; auto.
       * destruct (ext_form (extension_profile h) =? profile_two_byte) eqn:E2.
         -- destruct (id <? 1) eqn:Ea; [cbn [fst]; intros _; rewrite E1, E2; auto|].
            destruct (255 <? zlen v) eqn:Eb; [cbn [fst]; intros _; rewrite E1, E2; auto|].
+           destruct (262140 <? exts_size_with _ _ _ _); [cbn [fst]; intros _; rewrite E1, E2; auto|].
            destruct (upd_inv wf_ext2 id v (extensions h) Hnd Hall ltac:(unfold wf_ext2; cbn [eid epayload]; lia)) as [U1 U2].
            destruct (set_existing id v (extensions h)); cbn [fst]; intros _; unfold ids;
              cbn [extensions extension_profile with_exts]; rewrite E1, E2; auto.
         -- destruct (negb (id =? 0)) eqn:Ea; [cbn [fst]; intros _; rewrite E1, E2; auto|].
            destruct (262140 <? zlen v) eqn:Eb; [cbn [fst]; intros _; rewrite E1, E2; auto|].
+           destruct (262140 <? exts_size_with _ _ _ _); [cbn [fst]; intros _; rewrite E1, E2; auto|].
            destruct (upd_inv (fun e => eid e = 0 /\ zlen (epayload e) <= 262140) id v (extensions h) Hnd Hall
                        ltac:(cbn [eid epayload]; lia)) as [U1 U2].
            destruct (set_existing id v (extensions h)); cbn [fst]; intros _; unfold ids;
@@ -398,13 +427,25 @@ Proof.
     destruct (ext_form (extension_profile h) =? profile_two_byte); apply D1; assumption.
 Qed.
 
+Lemma step_shape h o : shape_ok h -> shape_ok (fst (model_step h o)).
+Proof.
+  intros Hshape. destruct o as [id v|id|id|]; cbn [model_step fst]; try exact Hshape.
+  - unfold set_extension. destruct (extension h) eqn:Hx.
+    + destruct (if extension_profile h =? profile_one_byte then _ else _); [exact Hshape|].
+      destruct (262140 <? exts_size_with _ _ _ _); [exact Hshape|].
+      destruct (set_existing id v (extensions h)); cbn [fst]; intros H; discriminate.
+    + repeat (case_if; try (cbn [fst]; intros H; discriminate)); exact Hshape.
+  - unfold del_extension. destruct (negb (extension h)) eqn:Hx; [exact Hshape|].
+    destruct (del_first id (extensions h)); cbn [fst]; [intros H; discriminate|exact Hshape].
+Qed.
+
 Lemma run_preserves_inv : forall ops h, Forall op_ok ops -> shape_ok h -> exts_inv h ->
   shape_ok (fst (run model_step h ops)) /\ exts_inv (fst (run model_step h ops)).
 Proof.
   induction ops as [|o t IH]; intros h Hops Hs Hi; cbn [run fst]; [split; assumption|].
   apply Forall_cons_iff in Hops as [Ho Ht].
-  pose proof (step_refines h o Hs) as Hr. pose proof (step_preserves_inv h o Ho Hs Hi) as Hi1.
-  destruct (model_step h o) as [h1 r]. destruct Hr as [_ Hs1]. cbn [fst] in Hi1.
+  pose proof (step_shape h o Hs) as Hs1. pose proof (step_preserves_inv h o Ho Hs Hi) as Hi1.
+  destruct (model_step h o) as [h1 r]. cbn [fst] in Hi1, Hs1.
   specialize (IH h1 Ht Hs1 Hi1). destruct (run model_step h1 t) as [h2 rs]. exact IH.
 Qed.
 
@@ -462,6 +503,57 @@ Proof.
     { apply nodup_range_length; [lia|assumption|]. apply Forall_map. eapply Forall_impl; [|exact Hall].
       intros e [He _]. exact He. }
     rewrite zlen_map in Hlen. lia.
+Qed.
+
+(* a header without a repeated id never comes near the 16-bit word count: at most 14 elements of
+   17 bytes, or 255 elements of 257 bytes - so on every header reachable from the four starting
+   states (and from a wire that names no id twice) no call is refused for size, and the refinement
+   to the ordered map applies to every sequence of calls *)
+Lemma exts_size_skip_le k id es : 0 <= k -> exts_size_skip_first k id es <= exts_size k es.
+Proof.
+  intros Hk. induction es as [|e t IH]; cbn [exts_size_skip_first exts_size]; [lia|].
+  pose proof (zlen_nonneg (epayload e)). destruct (eid e =? id); lia.
+Qed.
+
+Lemma exts_size_bound k m es : 0 <= k -> 0 <= m -> Forall (fun e => zlen (epayload e) <= m) es ->
+  exts_size k es <= (k + m) * zlen es.
+Proof.
+  intros Hk Hm. induction 1 as [|e t He _ IH]; cbn [exts_size]; [unfold zlen; cbn [length]; lia|rewrite zlen_cons].
+  cbv beta in He. pose proof (zlen_nonneg t). nia.
+Qed.
+
+Lemma inv_op_fits h o : exts_inv h -> op_fits h o.
+Proof.
+  intros Hinv. destruct o as [id v|id|id|]; cbn [op_fits]; auto.
+  intros Hx Hval. destruct (Hinv Hx) as (Hnd & Hprof & Hall). unfold ids in Hnd.
+  unfold valid_for in Hval. unfold exts_size_with, elem_hdr_len.
+  destruct (extension_profile h =? profile_one_byte) eqn:E1.
+  - cbn [Z.eqb]. destruct ((id <? 1) || (14 <? id)); [discriminate|].
+    destruct ((zlen v =? 0) || (16 <? zlen v)) eqn:Ev; [discriminate|].
+    pose proof (exts_size_skip_le 1 id (extensions h) ltac:(lia)) as H1.
+    pose proof (exts_size_bound 1 16 (extensions h) ltac:(lia) ltac:(lia)) as H2.
+    assert (Hlen : zlen (map eid (extensions h)) <= 14).
+    { apply nodup_range_length; [lia|assumption|]. apply Forall_map. eapply Forall_impl; [|exact Hall].
+      intros e [He _]. exact He. }
+    rewrite zlen_map in Hlen. pose proof (zlen_nonneg (extensions h)).
+    specialize (H2 ltac:(eapply Forall_impl; [|exact Hall]; intros e [_ He]; cbv beta; lia)). nia.
+  - destruct (ext_form (extension_profile h) =? profile_two_byte) eqn:E2.
+    + cbn [Z.eqb]. destruct (id <? 1); [discriminate|]. destruct (255 <? zlen v) eqn:Ev; [discriminate|].
+      pose proof (exts_size_skip_le 2 id (extensions h) ltac:(lia)) as H1.
+      pose proof (exts_size_bound 2 255 (extensions h) ltac:(lia) ltac:(lia)) as H2.
+      assert (Hlen : zlen (map eid (extensions h)) <= 255).
+      { apply nodup_range_length; [lia|assumption|]. apply Forall_map. eapply Forall_impl; [|exact Hall].
+        intros e [He _]. exact He. }
+      rewrite zlen_map in Hlen. pose proof (zlen_nonneg (extensions h)).
+      specialize (H2 ltac:(eapply Forall_impl; [|exact Hall]; intros e [_ He]; cbv beta; lia)). nia.
+    + cbn [Z.eqb]. destruct (negb (id =? 0)); [discriminate|]. destruct (262140 <? zlen v) eqn:Ev; [discriminate|]. lia.
+Qed.
+
+Lemma inv_run_fits : forall ops h, Forall op_ok ops -> shape_ok h -> exts_inv h -> run_fits h ops.
+Proof.
+  induction ops as [|o t IH]; intros h Hops Hs Hi; cbn [run_fits]; [exact I|].
+  apply Forall_cons_iff in Hops as [Ho Ht]. split; [apply inv_op_fits; assumption|].
+  apply IH; [assumption|apply step_shape; assumption|apply step_preserves_inv; assumption].
 Qed.
 
 (* Every value the accessors hold survives Marshal and Unmarshal; Marshal may refuse only a
